@@ -15,6 +15,7 @@ def install(r):
     def _now(I, a, k):
         t = fresh_int("now")
         I.st.assume(t >= 0)
+        I.st.ghost["py_nows"] = list(I.st.ghost.get("py_nows", [])) + [t]
         return SInt(t)
 
     @r.ext("datetime:datetime.fromisoformat")
